@@ -15,6 +15,7 @@ import RV.Base.Proto
     readn3 tok…                -> `unreadable`, or the tree the reader builds (same prefix form as evalsyn's input)
                                   ` => ` the path `translate` makes of it (prefix form of `eval`'s input)
     evaln3 S O <path>          -> `unreadable`, or the `eval` answer of translate (read (n3 (build path)))
+    evalf S O <path>           -> for a path `m mod X`: the answer of MulPath.eval(…, first=False) (`T|pairs`, a list); else bad-op
     api S O <path>             -> the Graph API answers for the built path (gContains / gObjects / gSubjects /
                                   gSubjectObjects / g…OfList / gValue…):
                                     S O given:  in|T or in|F
@@ -224,6 +225,13 @@ def step (g : Graph) : List String → Graph × String
   | "evalsyn" :: s :: o :: ws =>
     match optNat? s, optNat? o, syn? (ws.length + 1) ws with
     | some s, some o, some (t, []) => (g, answer g (translate t) s o)
+    | _, _, _ => (g, "bad-op")
+  | "evalf" :: s :: o :: ws =>
+    match optNat? s, optNat? o, path? (ws.length + 1) ws with
+    | some s, some o, some (p, []) =>
+      match build p with
+      | .mul q m => (g, "T|" ++ showPairs (mulEvalF g (evalPath g q) m false s o))
+      | _ => (g, "bad-op")
     | _, _, _ => (g, "bad-op")
   | "api" :: s :: o :: ws =>
     match optNat? s, optNat? o, path? (ws.length + 1) ws with
